@@ -1,6 +1,13 @@
-(* A generic induction principle over the kernel operations: any preorder on worlds that is
-   respected by the primitive updates relates the input and output world of every
-   framer-level operation at every auxiliary depth. *)
+(* A generic, framer-indexed induction principle over the kernel operations.
+
+   [R a w w'] describes what an operation executed BY framer [a] may do to the world.  If R is
+   a preorder respected by the primitive updates -- where an operation of [a] may overwrite
+   [a]'s own tasker state, bid (desire/period) on anybody, mark as done only its declared
+   done-targets, set the main frame only of its children, and do to a child [x] whatever [R x]
+   allows -- then every framer-level operation at every auxiliary depth satisfies R.
+
+   children of a: the auxiliaries listed in a's frames, the targets of its fiats, of its
+   conditional-aux clauses and of their deactivize side-acts. *)
 From Coq Require Import List ZArith Bool Arith Lia.
 Import ListNotations.
 Require Import V.Kernel.Model.
@@ -8,51 +15,106 @@ Require Import V.Kernel.Model.
 Section G.
 Variable O : TimeOps.
 Variable P : prog O.
-Variable R : world O -> world O -> Prop.
-Hypothesis R_refl : forall w, R w w.
-Hypothesis R_trans : forall a b c, R a b -> R b c -> R a c.
-Hypothesis R_emit : forall w e, R w (emit w e).
-Hypothesis R_sett : forall w t s, R w (sett w t s).
-Hypothesis R_vars : forall w l, R w (set_vars w l).
-Hypothesis R_crashed : forall w c, R w (set_crashed w c).
-Hypothesis R_bump : forall w, R w (bump_rec w).
-Hypothesis R_oof : forall w, R w (set_oof w).
+
+Definition act_child (ac : act O) (x : tid) : Prop :=
+  match ac with AFiat _ t => t = x | ADeactivize t => t = x | _ => False end.
+Definition act_done (ac : act O) (x : tid) : Prop :=
+  match ac with ADone ts => In x ts | _ => False end.
+
+Definition frame_acts (fr : frame O) : list (act O) :=
+  enacts fr ++ renacts fr ++ reacts fr ++ exacts fr ++ rexacts fr ++
+  flat_map (fun pa => match pa with PAct a => [a] | _ => [] end) (preacts fr).
+
+Definition child (a x : tid) : Prop :=
+  exists f, In x (fr_auxes (getf P a f)) \/
+            (exists ac, In ac (frame_acts (getf P a f)) /\ act_child ac x) \/
+            (exists ns, In (PAux ns x) (preacts (getf P a f))).
+Definition dtarget (a x : tid) : Prop :=
+  exists f ac, In ac (frame_acts (getf P a f)) /\ act_done ac x.
+
+Variable R : tid -> world O -> world O -> Prop.
+Hypothesis R_refl : forall a w, R a w w.
+Hypothesis R_trans : forall a w1 w2 w3, R a w1 w2 -> R a w2 w3 -> R a w1 w3.
+Hypothesis R_emit : forall a w e, R a w (emit w e).
+Hypothesis R_vars : forall a w l, R a w (set_vars w l).
+Hypothesis R_crashed : forall a w c, R a w (set_crashed w c).
+Hypothesis R_bump : forall a w, R a w (bump_rec w).
+Hypothesis R_oof : forall a w, R a w (set_oof w).
+Hypothesis R_self : forall a w s, R a w (sett w a s).
+Hypothesis R_bid : forall a w x c, R a w (modt w x (fun s => ts_set_desire s c)).
+Hypothesis R_per : forall a w x p, R a w (modt w x (fun s => ts_set_period s p)).
+Hypothesis R_done : forall a w x, dtarget a x -> R a w (modt w x (fun s => ts_set_done s true)).
+Hypothesis R_main : forall a w x m, child a x -> R a w (modt w x (fun s => ts_set_main s m)).
+Hypothesis R_sub : forall a x w w', child a x -> R x w w' -> R a w w'.
 
 Definition ops_R (o : ops O) : Prop :=
-  (forall t w, R w (o_enterAll o t w)) /\
-  (forall b t w, R w (o_exitAll o b t w)) /\
-  (forall t w, R w (o_segue o t w)) /\
-  (forall t w, R w (o_recur o t w)) /\
-  (forall t c w, R w (fst (o_send o t c w))).
+  (forall a w, R a w (o_enterAll o a w)) /\
+  (forall b a w, R a w (o_exitAll o b a w)) /\
+  (forall a w, R a w (o_segue o a w)) /\
+  (forall a w, R a w (o_recur o a w)) /\
+  (forall a c w, R a w (fst (o_send o a c w))).
 
-Lemma R_modt w t f : R w (modt w t f).
-Proof. apply R_sett. Qed.
+Lemma R_modself a w f : R a w (modt w a f).
+Proof. apply R_self. Qed.
 
-Lemma R_guard w k : (forall w, R w (k w)) -> R w (guard w k).
+Lemma R_guard a w k : (forall w, R a w (k w)) -> R a w (guard w k).
 Proof. intros H. unfold guard. destruct (crashed w); auto. Qed.
 
-Lemma R_fold {A} (f : world O -> A -> world O) l :
-  (forall w a, R w (f w a)) -> forall w, R w (fold_left f l w).
+Lemma R_fold_in {A} a (f : world O -> A -> world O) l :
+  (forall w x, In x l -> R a w (f w x)) -> forall w, R a w (fold_left f l w).
 Proof.
-  intros H. induction l as [|a l IH]; intros w; cbn; [apply R_refl|].
-  eapply R_trans; [apply H|apply IH].
+  induction l as [|x l IH]; intros H w; cbn; [apply R_refl|].
+  eapply R_trans; [apply H; left; reflexivity|apply IH]. intros; apply H; right; assumption.
 Qed.
 
 Ltac rt := eapply R_trans.
+
+Definition act_ok (a : tid) (ac : act O) : Prop :=
+  (forall x, act_child ac x -> child a x) /\ (forall x, act_done ac x -> dtarget a x).
+
+Lemma frame_acts_ok a f ac : In ac (frame_acts (getf P a f)) -> act_ok a ac.
+Proof.
+  intros H. split; intros x Hx.
+  - exists f. right. left. exists ac. auto.
+  - exists f, ac. auto.
+Qed.
+
+Ltac inapp := repeat (apply in_or_app; first [left; assumption | right]); try assumption.
+
+Lemma in_enacts a f ac : In ac (enacts (getf P a f)) -> act_ok a ac.
+Proof. intros; apply (frame_acts_ok a f); unfold frame_acts; inapp. Qed.
+Lemma in_renacts a f ac : In ac (renacts (getf P a f)) -> act_ok a ac.
+Proof. intros; apply (frame_acts_ok a f); unfold frame_acts; inapp. Qed.
+Lemma in_reacts a f ac : In ac (reacts (getf P a f)) -> act_ok a ac.
+Proof. intros; apply (frame_acts_ok a f); unfold frame_acts; inapp. Qed.
+Lemma in_exacts a f ac : In ac (exacts (getf P a f)) -> act_ok a ac.
+Proof. intros; apply (frame_acts_ok a f); unfold frame_acts; inapp. Qed.
+Lemma in_rexacts a f ac : In ac (rexacts (getf P a f)) -> act_ok a ac.
+Proof. intros; apply (frame_acts_ok a f); unfold frame_acts; inapp. Qed.
+Lemma in_preacts a f ac : In (PAct ac) (preacts (getf P a f)) -> act_ok a ac.
+Proof.
+  intros H; apply (frame_acts_ok a f); unfold frame_acts.
+  repeat (apply in_or_app; right). apply in_flat_map. exists (PAct ac). split; [exact H|left; reflexivity].
+Qed.
+Lemma in_auxes a f x : In x (fr_auxes (getf P a f)) -> child a x.
+Proof. intros H. exists f. left. exact H. Qed.
+Lemma in_paux a f ns x : In (PAux ns x) (preacts (getf P a f)) -> child a x.
+Proof. intros H. exists f. right. right. exists ns. exact H. Qed.
 
 Section Step.
 Variable sub : ops O.
 Hypothesis Hsub : ops_R sub.
 
-Lemma R_deactivate aux w : R w (deactivate_aux P sub aux w).
+Lemma R_deactivate a aux w : child a aux -> R a w (deactivate_aux P sub aux w).
 Proof.
-  unfold deactivate_aux. destruct Hsub as [_ [Hx _]].
-  rt; [apply Hx|]. apply R_guard. intros w'. destruct (fm_original _); [apply R_modt|apply R_refl].
+  intros Hc. unfold deactivate_aux. destruct Hsub as [_ [Hx _]].
+  rt; [eapply R_sub; [exact Hc|apply Hx]|]. apply R_guard. intros w'.
+  destruct (fm_original _); [apply R_main; exact Hc|apply R_refl].
 Qed.
 
-Lemma R_run_act me a w : R w (run_act P sub me a w).
+Lemma R_run_act a ac w : act_ok a ac -> R a w (run_act P sub a ac w).
 Proof.
-  unfold run_act. apply R_guard. clear w. intros w. destruct a.
+  intros [Hch Hdn]. unfold run_act. apply R_guard. clear w. intros w. destruct ac.
   - destruct (crash_at w) as [[k e]|].
     + destruct (Nat.eqb k (nrec w)).
       * rt; [apply R_emit|]. rt; [apply R_bump|]. apply R_crashed.
@@ -61,170 +123,179 @@ Proof.
   - apply R_vars.
   - apply R_vars.
   - apply R_vars.
-  - apply R_fold. intros w' t. rt; [|apply R_modt].
-    destruct c; destruct p; try apply R_refl; apply R_modt.
-  - destruct Hsub as [_ [_ [_ [_ Hs]]]]. apply Hs.
-  - apply R_fold. intros; apply R_modt.
-  - destruct (done _); [apply R_refl|apply R_deactivate].
+  - apply R_fold_in. intros w' t _. rt; [|apply R_bid].
+    destruct c; destruct p; try apply R_refl; apply R_per.
+  - destruct Hsub as [_ [_ [_ [_ Hs]]]]. eapply R_sub; [apply Hch; reflexivity|apply Hs].
+  - apply R_fold_in. intros w' x Hx. apply R_done. apply Hdn. exact Hx.
+  - destruct (done _); [apply R_refl|apply R_deactivate; apply Hch; reflexivity].
 Qed.
 
-Lemma R_run_acts me l w : R w (run_acts P sub me l w).
-Proof. unfold run_acts. apply R_fold. intros; apply R_run_act. Qed.
+Lemma R_run_acts a l w : (forall ac, In ac l -> act_ok a ac) -> R a w (run_acts P sub a l w).
+Proof. intros H. unfold run_acts. apply R_fold_in. intros; apply R_run_act; auto. Qed.
 
-Lemma R_frame_enter w f : R w (frame_enter P sub w f).
+Lemma R_frame_enter a w f : R a w (frame_enter P sub a w f).
 Proof.
   unfold frame_enter. apply R_guard. clear w. intros w.
-  rt; [apply R_emit|]. rt; [apply R_run_acts|]. apply R_fold. intros w' aux.
-  apply R_guard. intros w''. destruct Hsub as [He _].
-  destruct (fm_original _); [rt; [apply R_modt|apply He]|apply He].
+  rt; [apply R_emit|]. rt; [apply R_run_acts; intros; eapply in_enacts; eauto|].
+  apply R_fold_in. intros w' aux Hin.
+  apply R_guard. intros w''. destruct Hsub as [He _]. pose proof (in_auxes a f aux Hin) as Hc.
+  destruct (fm_original _).
+  - rt; [apply R_main; exact Hc|]. eapply R_sub; [exact Hc|apply He].
+  - eapply R_sub; [exact Hc|apply He].
 Qed.
 
-Lemma R_framer_enter t l w : R w (framer_enter P sub t l w).
+Lemma R_framer_enter a l w : R a w (framer_enter P sub a l w).
 Proof.
   unfold framer_enter. apply R_guard. clear w. intros w.
-  rt; [|apply R_fold; intros; apply R_frame_enter].
-  destruct l; [apply R_refl|apply R_modt].
+  rt; [|apply R_fold_in; intros; apply R_frame_enter].
+  destruct l; [apply R_refl|apply R_modself].
 Qed.
 
-Lemma R_frame_exit w f : R w (frame_exit P sub w f).
+Lemma R_frame_exit a w f : R a w (frame_exit P sub a w f).
 Proof.
   unfold frame_exit. apply R_guard. clear w. intros w.
-  rt; [|apply R_guard; intros w'; rt; [apply R_emit|apply R_run_acts]].
-  apply R_fold.
-  intros w' aux. apply R_guard. intros w''. destruct Hsub as [_ [Hx _]].
-  rt; [apply Hx|]. apply R_guard. intros w3. destruct (fm_original _); [apply R_modt|apply R_refl].
+  rt; [|apply R_guard; intros w'; rt; [apply R_emit|apply R_run_acts; intros; eapply in_exacts; eauto]].
+  apply R_fold_in.
+  intros w' aux Hin. pose proof (in_auxes a f aux Hin) as Hc.
+  apply R_guard. intros w''. destruct Hsub as [_ [Hx _]].
+  rt; [eapply R_sub; [exact Hc|apply Hx]|]. apply R_guard. intros w3.
+  destruct (fm_original _); [apply R_main; exact Hc|apply R_refl].
 Qed.
 
-Lemma R_framer_exit l w : R w (framer_exit P sub l w).
-Proof. unfold framer_exit. apply R_fold. intros; apply R_frame_exit. Qed.
-Lemma R_framer_rexit l w : R w (framer_rexit P sub l w).
-Proof. unfold framer_rexit. apply R_fold. intros; apply R_run_acts. Qed.
-Lemma R_framer_renter l w : R w (framer_renter P sub l w).
-Proof. unfold framer_renter. apply R_fold. intros; apply R_run_acts. Qed.
+Lemma R_framer_exit a l w : R a w (framer_exit P sub a l w).
+Proof. unfold framer_exit. apply R_fold_in. intros; apply R_frame_exit. Qed.
+Lemma R_framer_rexit a l w : R a w (framer_rexit P sub a l w).
+Proof. unfold framer_rexit. apply R_fold_in. intros; apply R_run_acts; intros; eapply in_rexacts; eauto. Qed.
+Lemma R_framer_renter a l w : R a w (framer_renter P sub a l w).
+Proof. unfold framer_renter. apply R_fold_in. intros; apply R_run_acts; intros; eapply in_renacts; eauto. Qed.
 
-Lemma R_activate t f w : R w (activate P t f w).
-Proof. apply R_modt. Qed.
-Lemma R_reactivate t w : R w (reactivate P t w).
-Proof. unfold reactivate. destruct (active _); [apply R_modt|apply R_refl]. Qed.
-Lemma R_change t l w : R w (change t l w).
-Proof. apply R_modt. Qed.
+Lemma R_activate a f w : R a w (activate P a f w).
+Proof. apply R_modself. Qed.
+Lemma R_reactivate a w : R a w (reactivate P a w).
+Proof. unfold reactivate. destruct (active _); [apply R_modself|apply R_refl]. Qed.
+Lemma R_change a l w : R a w (change a l w).
+Proof. apply R_modself. Qed.
 
-Lemma R_transit t ns far w : R w (fst (transit P sub t ns far w)).
+Lemma R_transit a ns far w : R a w (fst (transit P sub a ns far w)).
 Proof.
   unfold transit. destruct (negb (forallb _ ns)); [apply R_refl|].
-  destruct (ExEn P (actives (gett w t)) far) as [[ex en] re].
-  destruct (negb (framer_checkEnter P sub en ex w)); [apply R_refl|]. cbn [fst].
+  destruct (ExEn P a (actives (gett w a)) far) as [[ex en] re].
+  destruct (negb (framer_checkEnter P sub a en ex w)); [apply R_refl|]. cbn [fst].
   rt; [apply R_framer_exit|]. rt; [apply R_framer_rexit|]. rt; [apply R_framer_renter|].
   rt; [apply R_framer_enter|]. apply R_guard. intros; apply R_activate.
 Qed.
 
-Lemma R_suspend t mf ns aux w : R w (fst (suspend P sub t mf ns aux w)).
+Lemma R_suspend a mf ns aux w : child a aux -> R a w (fst (suspend P sub a mf ns aux w)).
 Proof.
-  unfold suspend. destruct Hsub as [He [Hx [Hsg [Hrc Hs]]]].
+  intros Hc. unfold suspend. destruct Hsub as [He [Hx [Hsg [Hrc Hs]]]].
   destruct (done (gett w aux)).
   - destruct (negb (forallb _ ns)); [apply R_refl|].
-    destruct (match main (gett w aux) with Some m => negb (Nat.eqb m mf) | None => false end); [apply R_refl|].
+    destruct (match main (gett w aux) with Some (mt, m) => _ | None => false end); [apply R_refl|].
     destruct (negb (o_checkStart sub aux w)); [apply R_refl|].
-    match goal with |- R w (fst (match crashed ?W with _ => _ end)) =>
-      assert (HW : R w W); [|destruct (crashed W)] end.
-    { rt; [|apply R_guard; intros; apply Hrc]. rt; [|apply He].
-      destruct (fm_original _); [apply R_modt|apply R_refl]. }
+    match goal with |- R a w (fst (match crashed ?W with _ => _ end)) =>
+      assert (HW : R a w W); [|destruct (crashed W)] end.
+    { rt; [|apply R_guard; intros; eapply R_sub; [exact Hc|apply Hrc]].
+      rt; [|eapply R_sub; [exact Hc|apply He]].
+      destruct (fm_original _); [apply R_main; exact Hc|apply R_refl]. }
     + exact HW.
-    + match goal with |- R w (fst (if ?c then _ else _)) => destruct c end; cbn [fst].
-      * rt; [exact HW|apply R_deactivate].
+    + match goal with |- R a w (fst (if ?c then _ else _)) => destruct c end; cbn [fst].
+      * rt; [exact HW|apply R_deactivate; exact Hc].
       * rt; [exact HW|apply R_change].
-  - match goal with |- R w (fst (match crashed ?W with _ => _ end)) =>
-      assert (HW : R w W); [|destruct (crashed W)] end.
-    { rt; [apply Hsg|]. apply R_guard; intros; apply Hrc. }
+  - match goal with |- R a w (fst (match crashed ?W with _ => _ end)) =>
+      assert (HW : R a w W); [|destruct (crashed W)] end.
+    { rt; [eapply R_sub; [exact Hc|apply Hsg]|]. apply R_guard; intros; eapply R_sub; [exact Hc|apply Hrc]. }
     + exact HW.
-    + match goal with |- R w (fst (if ?c then _ else _)) => destruct c end; cbn [fst].
-      * rt; [exact HW|]. rt; [apply R_deactivate|]. apply R_guard; intros; apply R_reactivate.
+    + match goal with |- R a w (fst (if ?c then _ else _)) => destruct c end; cbn [fst].
+      * rt; [exact HW|]. rt; [apply R_deactivate; exact Hc|]. apply R_guard; intros; apply R_reactivate.
       * exact HW.
 Qed.
 
-Lemma R_precur t f l : forall w, R w (fst (precur P sub t f l w)).
+Lemma R_precur a f l : (forall pa, In pa l -> In pa (preacts (getf P a f))) ->
+  forall w, R a w (fst (precur P sub a f l w)).
 Proof.
-  induction l as [|pa l IH]; intros w; cbn [precur]; destruct (crashed w); try apply R_refl.
-  destruct pa as [a|ns far|ns aux].
-  - destruct a; try (rt; [apply R_run_act|apply IH]).
-    destruct (o_send sub t0 c w) as [w' r] eqn:Hs.
-    assert (R w w') by (destruct Hsub as [_ [_ [_ [_ H]]]]; specialize (H t0 c w); rewrite Hs in H; exact H).
-    destruct (fiat_ok c r); [exact H|]. rt; [exact H|apply IH].
-  - pose proof (R_transit t ns far w) as H. destruct (transit P sub t ns far w) as [w' r].
-    destruct r; [exact H|]. rt; [exact H|apply IH].
-  - pose proof (R_suspend t f ns aux w) as H. destruct (suspend P sub t f ns aux w) as [w' r].
-    destruct r; [exact H|]. rt; [exact H|apply IH].
+  induction l as [|pa l IH]; intros Hin w; cbn [precur]; destruct (crashed w); try apply R_refl.
+  assert (Hl : forall pa0, In pa0 l -> In pa0 (preacts (getf P a f))) by (intros; apply Hin; right; assumption).
+  assert (Hpa : In pa (preacts (getf P a f))) by (apply Hin; left; reflexivity).
+  destruct pa as [ac|ns far|ns aux].
+  - pose proof (in_preacts a f ac Hpa) as Hok.
+    destruct ac; try (rt; [apply R_run_act; exact Hok|apply IH; exact Hl]).
+    destruct (o_send sub t c w) as [w' r] eqn:Hs.
+    assert (H : R a w w').
+    { destruct Hsub as [_ [_ [_ [_ H]]]]. specialize (H t c w). rewrite Hs in H.
+      eapply R_sub; [apply (proj1 Hok); reflexivity|exact H]. }
+    destruct (fiat_ok c r); [exact H|]. rt; [exact H|apply IH; exact Hl].
+  - pose proof (R_transit a ns far w) as H. destruct (transit P sub a ns far w) as [w' r].
+    destruct r; [exact H|]. rt; [exact H|apply IH; exact Hl].
+  - pose proof (R_suspend a f ns aux w (in_paux a f ns aux Hpa)) as H.
+    destruct (suspend P sub a f ns aux w) as [w' r].
+    destruct r; [exact H|]. rt; [exact H|apply IH; exact Hl].
 Qed.
 
-Lemma R_segue_frames t l : forall w, R w (fst (segue_frames P sub t l w)).
+Lemma R_segue_frames a l : forall w, R a w (fst (segue_frames P sub a l w)).
 Proof.
   induction l as [|f l IH]; intros w; cbn [segue_frames]; destruct (crashed w); try apply R_refl.
-  pose proof (R_precur t f (preacts (getf P f)) w) as H.
-  destruct (precur P sub t f (preacts (getf P f)) w) as [w' r].
+  pose proof (R_precur a f (preacts (getf P a f)) (fun pa H => H) w) as H.
+  destruct (precur P sub a f (preacts (getf P a f)) w) as [w' r].
   destruct r; [exact H|]. rt; [exact H|apply IH].
 Qed.
 
-Lemma R_framer_segue t w : R w (framer_segue P sub t w).
+Lemma R_framer_segue a w : R a w (framer_segue P sub a w).
 Proof.
   unfold framer_segue. apply R_guard. clear w. intros w.
-  rt; [apply R_emit|]. rt; [apply R_sett|].
+  rt; [apply R_emit|]. rt; [apply R_self|].
   rt; [|apply R_segue_frames].
-  apply R_fold. intros w' f. apply R_fold. intros w'' aux. apply R_guard.
-  destruct Hsub as [_ [_ [Hsg _]]]. intros; apply Hsg.
+  apply R_fold_in. intros w' f _. apply R_fold_in. intros w'' aux Hin. apply R_guard.
+  destruct Hsub as [_ [_ [Hsg _]]]. intros; eapply R_sub; [eapply in_auxes; eauto|apply Hsg].
 Qed.
 
-Lemma R_framer_recur t w : R w (framer_recur P sub t w).
+Lemma R_framer_recur a w : R a w (framer_recur P sub a w).
 Proof.
   unfold framer_recur. apply R_guard. clear w. intros w.
-  apply R_fold. intros w' f. apply R_guard. intros w''.
-  rt; [apply R_emit|]. rt; [apply R_run_acts|].
-  apply R_fold. intros w3 aux. apply R_guard. destruct Hsub as [_ [_ [_ [Hrc _]]]]. intros; apply Hrc.
+  apply R_fold_in. intros w' f _. apply R_guard. intros w''.
+  rt; [apply R_emit|]. rt; [apply R_run_acts; intros; eapply in_reacts; eauto|].
+  apply R_fold_in. intros w3 aux Hin. apply R_guard. destruct Hsub as [_ [_ [_ [Hrc _]]]].
+  intros; eapply R_sub; [eapply in_auxes; eauto|apply Hrc].
 Qed.
 
-Lemma R_framer_enterAll t w : R w (framer_enterAll P sub t w).
+Lemma R_framer_enterAll a w : R a w (framer_enterAll P sub a w).
 Proof.
   unfold framer_enterAll. apply R_guard. clear w. intros w.
-  rt; [apply R_modt|]. rt; [apply R_activate|]. apply R_framer_enter.
+  rt; [apply R_modself|]. rt; [apply R_activate|]. apply R_framer_enter.
 Qed.
 
-Lemma R_framer_exitAll b t w : R w (framer_exitAll P sub b t w).
+Lemma R_framer_exitAll b a w : R a w (framer_exitAll P sub b a w).
 Proof.
   unfold framer_exitAll. apply R_guard. clear w. intros w.
   rt; [apply R_framer_exit|]. apply R_guard. intros w'.
-  destruct b; [apply R_modt|]. rt; apply R_modt.
+  destruct b; [apply R_modself|]. rt; apply R_modself.
 Qed.
 
-Lemma R_framer_send t c w : R w (fst (framer_send P sub t c w)).
+Lemma R_framer_send a c w : R a w (fst (framer_send P sub a c w)).
 Proof.
   unfold framer_send. destruct (crashed w); [apply R_refl|].
-  destruct (negb (alive (gett w t))); [apply R_emit|].
-  match goal with |- R w (fst (match crashed ?W with _ => _ end)) =>
-    assert (HW : R w W); [|destruct (crashed W); cbn [fst]; [rt; [exact HW|apply R_modt]|rt; [exact HW|apply R_emit]]] end.
+  destruct (negb (alive (gett w a))); [apply R_emit|].
+  match goal with |- R a w (fst (match crashed ?W with _ => _ end)) =>
+    assert (HW : R a w W); [|destruct (crashed W); cbn [fst]; [rt; [exact HW|apply R_modself]|rt; [exact HW|apply R_emit]]] end.
   destruct c.
-  - (* stop *)
-    destruct (match st (gett w t) with Running | Started => true | _ => false end).
-    + rt; [apply R_modt|]. rt; [apply R_framer_exitAll|]. apply R_guard; intros; apply R_modt.
-    + destruct (match st (gett w t) with Stopped | Readied => true | _ => false end); [apply R_refl|apply R_modt].
-  - (* start *)
-    destruct (match st (gett w t) with Stopped | Readied => true | _ => false end).
-    + destruct (framer_checkStart P sub t w).
-      * rt; [apply R_modt|]. rt; [apply R_framer_enterAll|]. rt; [apply R_framer_recur|].
-        apply R_guard; intros; apply R_modt.
-      * apply R_modt.
-    + destruct (match st (gett w t) with Running | Started => true | _ => false end); apply R_modt.
-  - (* run *)
-    destruct (match st (gett w t) with Running | Started => true | _ => false end).
-    + rt; [apply R_framer_segue|]. rt; [apply R_framer_recur|]. apply R_guard; intros; apply R_modt.
-    + destruct (match st (gett w t) with Stopped | Readied => true | _ => false end); apply R_modt.
-  - (* abort *)
-    rt; [|apply R_guard; intros; apply R_modt].
-    destruct (match st (gett w t) with Running | Started => true | _ => false end);
+  - destruct (match st (gett w a) with Running | Started => true | _ => false end).
+    + rt; [apply R_modself|]. rt; [apply R_framer_exitAll|]. apply R_guard; intros; apply R_modself.
+    + destruct (match st (gett w a) with Stopped | Readied => true | _ => false end); [apply R_refl|apply R_modself].
+  - destruct (match st (gett w a) with Stopped | Readied => true | _ => false end).
+    + destruct (framer_checkStart P sub a w).
+      * rt; [apply R_modself|]. rt; [apply R_framer_enterAll|]. rt; [apply R_framer_recur|].
+        apply R_guard; intros; apply R_modself.
+      * apply R_modself.
+    + destruct (match st (gett w a) with Running | Started => true | _ => false end); apply R_modself.
+  - destruct (match st (gett w a) with Running | Started => true | _ => false end).
+    + rt; [apply R_framer_segue|]. rt; [apply R_framer_recur|]. apply R_guard; intros; apply R_modself.
+    + destruct (match st (gett w a) with Stopped | Readied => true | _ => false end); apply R_modself.
+  - rt; [|apply R_guard; intros; apply R_modself].
+    destruct (match st (gett w a) with Running | Started => true | _ => false end);
       [apply R_framer_exitAll|apply R_refl].
-  - (* ready *)
-    destruct (match st (gett w t) with Stopped | Readied => true | _ => false end).
-    + destruct (framer_checkStart P sub t w); apply R_modt.
-    + destruct (match st (gett w t) with Running | Started => true | _ => false end);
-        [apply R_refl|apply R_modt].
+  - destruct (match st (gett w a) with Stopped | Readied => true | _ => false end).
+    + destruct (framer_checkStart P sub a w); apply R_modself.
+    + destruct (match st (gett w a) with Running | Started => true | _ => false end);
+        [apply R_refl|apply R_modself].
 Qed.
 
 Lemma step_ops_R : ops_R (step_ops P sub).
@@ -245,7 +316,7 @@ Proof. repeat split; intros; cbn; apply R_oof. Qed.
 Lemma lvl_R n : ops_R (lvl P n).
 Proof. induction n; cbn; [apply ops0_R|apply step_ops_R; assumption]. Qed.
 
-Lemma send_R n t c w : R w (fst (o_send (lvl P n) t c w)).
+Lemma send_R n a c w : R a w (fst (o_send (lvl P n) a c w)).
 Proof. destruct (lvl_R n) as [_ [_ [_ [_ H]]]]. apply H. Qed.
 
 End G.
